@@ -80,3 +80,57 @@ class Aux(MetadataSchema):
         auxiliary = True
 
     x: Int
+
+
+# A family whose middle schema exists in two versions with DIFFERENT parents: the parent chain of a schema is the
+# chain of the classes it really derives from, not the one of the newest compatible version of each ancestor.
+class Root010(MetadataSchema):
+    """verif.root 0.1.0"""
+
+    class Plugin:
+        name = "verif.root"
+        version = (0, 1, 0)
+
+    rootname: Optional[NonEmptyStr]
+
+
+class Root020(MetadataSchema):
+    """verif.root 0.2.0"""
+
+    class Plugin:
+        name = "verif.root"
+        version = (0, 2, 0)
+
+    rootname: Optional[NonEmptyStr]
+    rootnote: Optional[NonEmptyStr]
+
+
+class Fam010(Root010):
+    """verif.fam 0.1.0 (child of verif.root 0.1.0)"""
+
+    class Plugin:
+        name = "verif.fam"
+        version = (0, 1, 0)
+
+    fam: Optional[Int]
+
+
+class Fam020(Root020):
+    """verif.fam 0.2.0 (child of verif.root 0.2.0)"""
+
+    class Plugin:
+        name = "verif.fam"
+        version = (0, 2, 0)
+
+    fam: Optional[Int]
+    famnote: Optional[NonEmptyStr]
+
+
+class FamKid(Fam010):
+    """verif.famkid 0.1.0 (child of verif.fam 0.1.0)"""
+
+    class Plugin:
+        name = "verif.famkid"
+        version = (0, 1, 0)
+
+    kid: NonEmptyStr
